@@ -77,6 +77,13 @@ func HandleCapability(deps ServerDeps, conn net.Conn, tag string, state *models.
 // ===== LOGIN =====
 
 func HandleLogin(deps ServerDeps, conn net.Conn, tag string, parts []string, state *models.ClientState) {
+	// Per RFC 3501: LOGIN is valid only in the not-authenticated state. A second identity on the same
+	// connection would inherit the first one's selected mailbox.
+	if state.Authenticated {
+		deps.SendResponse(conn, fmt.Sprintf("%s BAD Already authenticated", tag))
+		return
+	}
+
 	// Check if LOGIN command has correct number of arguments
 	if len(parts) < 4 {
 		deps.SendResponse(conn, fmt.Sprintf("%s BAD LOGIN requires username and password", tag))
@@ -113,6 +120,12 @@ func HandleLogin(deps ServerDeps, conn net.Conn, tag string, parts []string, sta
 // ===== AUTHENTICATE =====
 
 func HandleAuthenticate(deps ServerDeps, conn net.Conn, tag string, parts []string, state *models.ClientState) {
+	// Per RFC 3501: AUTHENTICATE is valid only in the not-authenticated state
+	if state.Authenticated {
+		deps.SendResponse(conn, fmt.Sprintf("%s BAD Already authenticated", tag))
+		return
+	}
+
 	if len(parts) < 3 {
 		deps.SendResponse(conn, fmt.Sprintf("%s BAD AUTHENTICATE requires authentication mechanism", tag))
 		return
